@@ -74,7 +74,11 @@ func engModelled(t *Target, od bool) bool {
 		switch t.Cmd.Op {
 		case "concat", "const", "copydir", "listnames", "fail", "catall":
 			return len(t.OutDirs) == 0 && len(t.Tools) == 0
-		case "usetool", "toolnames": // the model's UseTool / ToolNames: the tools are labels
+		case "usetool", "toolnames", "usentool": // the model's UseTool / ToolNames / UseNTool: the tools are labels
+			// the model reads "the tools are declared in dict form" off the command: usentool <-> tools = {name: [...]}
+			if (t.Cmd.Op == "usentool") != (t.ToolName != "") || (t.ToolName != "" && t.Cmd.Arg != t.ToolName) {
+				return false
+			}
 			for _, x := range t.Tools {
 				if !strings.HasPrefix(x, "//") {
 					return false
@@ -645,6 +649,8 @@ func engKind(t *Target, pkg string) string {
 		return "(Genrule UseTool)"
 	case "toolnames":
 		return "(Genrule ToolNames)"
+	case "usentool":
+		return "(Genrule UseNTool)"
 	case "outdir":
 		if !engModelled(t, true) {
 			panic("engine model covers output_dirs targets only with output_dirs = [_o] and file sources")
